@@ -73,7 +73,53 @@ def build(repo):
         Rule("R13", "$a . append ( & mut $$b ) ;", lambda bb: f"{{ let mut verif_tmp = {text(bb['b'])} ; vappend ( & mut {text(bb['a'])} , & mut verif_tmp ) ; }}", why="Vec::append (temporary named; set view of the concatenation)"),
     ], log, "Dependencies for Expr")
     check_closed(b, "Dependencies for Expr")
-    gen = header(log, f"{MATH}: impl Dependencies for Expr :: dependencies") + SPEC + f"""
+    ASG = "compiler/src/ast/assignment.rs"
+    fa = src.fn(ASG, "net_dependencies", "impl Dependencies for Assignment")
+    inva = ("invariant verif_k <= dependencies@.len(), result@ == dependencies@.subrange(0, verif_k as int).filter(keep(supply_name)) decreases dependencies@.len() - verif_k")
+    def aloop(bb):
+        x = text(bb["x"])
+        return ["let mut verif_k : usize = 0 ; while verif_k < dependencies . len ( )", G(inva), "{", f"let {x} = clone_dep ( & dependencies [ verif_k ] ) ; verif_k += 1 ;",
+                G("proof { lemma_filter_step(dependencies@, verif_k as int - 1, supply_name); }"), *bb["body"], "}",
+                G("proof { assert(dependencies@.subrange(0, dependencies@.len() as int) =~= dependencies@); }")]
+    ba = translate(fa["body"], [
+        Rule("R6", "let dependencies = self . dependencies ( ) ;", "let dependencies = own_dependencies ( self ) ;", count=1, why="Assignment::dependencies abstract"),
+        Rule("R6", "self . supplies ( ) . pop ( )", "supplied ( self )", count=1, why="Assignment::supplies().pop(): the identifier this assignment declares (None for `modify`)"),
+        Rule("R12", "let mut result = Vec :: with_capacity ( $$n ) ;", "let mut result : Vec < Dep > = Vec :: new ( ) ;", count=1, why="capacity hint dropped"),
+        Rule("R2", "for $x in dependencies { $$body }", aloop, count=1, why="for over Vec (by value) -> indexed while over clones"),
+        Rule("R9", "dependency != supply_name", "! dep_eq ( & dependency , & supply_name )", why="Dependency: PartialEq (abstract relation: same identifier)"),
+        Rule("R9", "dependency . name ( ) != supply_name . name ( )", "! name_eq ( & dependency , & supply_name )", why="comparison of the names only (a different relation)"),
+    ], log, "Assignment::net_dependencies")
+    check_closed(ba, "Assignment::net_dependencies")
+    gen = header(log, f"{MATH}: impl Dependencies for Expr :: dependencies; {ASG}: Assignment::net_dependencies") + SPEC + f"""
+#[verifier::external_body] pub struct Assignment {{ x: usize }}
+pub uninterp spec fn own_deps(a: &Assignment) -> Seq<Dep>;
+pub uninterp spec fn supplied_of(a: &Assignment) -> Option<Dep>;
+#[verifier::external_body] pub fn own_dependencies(a: &Assignment) -> (r: Vec<Dep>) ensures r@ == own_deps(a) {{ unimplemented!() }}
+#[verifier::external_body] pub fn supplied(a: &Assignment) -> (r: Option<Dep>) ensures r == supplied_of(a) {{ unimplemented!() }}
+#[verifier::external_body] pub fn clone_dep(d: &Dep) -> (r: Dep) ensures r == *d {{ unimplemented!() }}
+// Dependency equality: the SAME identifier -- name and what it denotes (a captured `x` and a freshly declared local `x` differ)
+pub uninterp spec fn same_dep(a: Dep, b: Dep) -> bool;
+pub uninterp spec fn same_name(a: Dep, b: Dep) -> bool;
+#[verifier::external_body] pub fn dep_eq(a: &Dep, b: &Dep) -> (r: bool) ensures r == same_dep(*a, *b) {{ unimplemented!() }}
+#[verifier::external_body] pub fn name_eq(a: &Dep, b: &Dep) -> (r: bool) ensures r == same_name(*a, *b) {{ unimplemented!() }}
+pub open spec fn keep(sup: Dep) -> spec_fn(Dep) -> bool {{ |d: Dep| !same_dep(d, sup) }}
+pub proof fn lemma_filter_step(s: Seq<Dep>, k: int, sup: Dep) requires 0 <= k < s.len()
+    ensures s.subrange(0, k + 1).filter(keep(sup)) == (if !same_dep(s[k], sup) {{ s.subrange(0, k).filter(keep(sup)).push(s[k]) }} else {{ s.subrange(0, k).filter(keep(sup)) }})
+{{
+    assert(s.subrange(0, k + 1).drop_last() =~= s.subrange(0, k));
+    reveal(Seq::filter);
+}}
+impl Assignment {{
+    //@ OBL C07.deps.assignment
+    // `x = x + 1` inside a closure: the captured x on the right is still a dependency; only the identifier the assignment itself declares is removed
+    #[verifier::loop_isolation(false)]
+    pub fn net_dependencies(&self) -> (r: Vec<Dep>)
+        ensures supplied_of(self) is None ==> r@ == own_deps(self),
+                supplied_of(self) is Some ==> r@ == own_deps(self).filter(keep(supplied_of(self)->Some_0)),
+    {{
+{render(ba, 2)}
+    }}
+}}
 impl Expr {{
     //@ OBL C07.deps.expr
     pub fn dependencies(&self) -> (r: Vec<Dep>)
@@ -85,7 +131,8 @@ impl Expr {{
 }} // verus!
 fn main() {{}}
 """
-    return gen, [Obl("C07.deps.expr", ["C07", "C12", "C15"], fn="Dependencies for Expr", desc="Expr::dependencies: the union of the dependencies of ALL parts (both operands, callee and arguments, indexed value and index, optional and its `or` fallback)")], log
+    return gen, [Obl("C07.deps.assignment", ["C07"], fn="Assignment::net_dependencies", desc="Assignment::net_dependencies: own dependencies minus exactly the identifier the assignment declares (Dependency equality, not name equality)"),
+                 Obl("C07.deps.expr", ["C07", "C12", "C15"], fn="Dependencies for Expr", desc="Expr::dependencies: the union of the dependencies of ALL parts (both operands, callee and arguments, indexed value and index, optional and its `or` fallback)")], log
 
 
 UNITS = [VUnit("c07_deps", ["C07", "C12"], "what an expression depends on = what a closure must capture", build)]
